@@ -1005,7 +1005,7 @@ impl Model {
     }
 
     /// The stub lifecycle between two builds.
-    fn restore(&mut self, kind: RestoreKind) {
+    pub fn restore(&mut self, kind: RestoreKind) {
         let old = self.snap.clone();
         // drop everything directly inside layers/, then put back what the lifecycle restores
         let top: Vec<Vec<u8>> = old.children(b"layers");
